@@ -5,7 +5,7 @@ named checks (quick), undo. Results go to seeded/own-mutants.json.   usage: tool
 """
 import json, os, subprocess, sys, time, shutil
 ROOT = os.path.dirname(os.path.dirname(os.path.abspath(__file__)))
-ENV = dict(os.environ, GOFLAGS="-mod=mod", GOPROXY="off", GOSUMDB="off", GOTOOLCHAIN="local")
+ENV = dict(os.environ, GOFLAGS="-mod=mod", GOPROXY="off", GOSUMDB="off", GOTOOLCHAIN="local", VERIF_EVIDENCE_DIR="/tmp/verif-mutant-evidence")
 
 M = [
  # name, file, old, new, checks
